@@ -5,9 +5,12 @@
 From V Require Import lib.Base model.Files proofs.FilesP gen.Gen_classic gen.Gen_consts.
 Open Scope N_scope.
 
-(* 0. tie: the six functions have the shape the model was written for; the default chunk size is in the domain *)
+Definition the_guard : fguard := dk_guard (sk_dir Gen_classic.upload_skel).     (* the filter guard the code has now *)
+
+(* 0. tie: the six functions have the shape the model was written for (with whatever filter guard they have now);
+      the default chunk size is in the domain *)
 Theorem c20_tie :
-  Gen_classic.upload_skel = std_skel Local Remote /\ Gen_classic.download_skel = std_skel Remote Local /\
+  Gen_classic.upload_skel = std_skel the_guard Local Remote /\ Gen_classic.download_skel = std_skel the_guard Remote Local /\
   Gen_classic.download_skel = swap_skel Gen_classic.upload_skel /\
   fk_body (sk_file Gen_classic.upload_skel) = [SRead; SBreakIfEmpty; SWrite] /\
   Gen_classic.default_chunk_is_STREAM_CHUNK = true /\ (1 <= Gen_consts.STREAM_CHUNK)%Z.
@@ -32,23 +35,55 @@ Proof.
 Qed.
 Print Assumptions c20_file_writes.
 
-(* 2. a tree uploaded to a path where nothing exists arrives as exactly what the filter leaves of it (same names,
+(* 2. a tree uploaded to a path where nothing exists arrives as exactly what the loop guard leaves of it (same names,
       same bytes, empty directories kept, order of listing kept), and the local side is unchanged *)
-Theorem c20_tree : forall t f chunk ign, 1 <= chunk -> wf_tree t = true -> t <> Special ->
-  transfer Gen_classic.upload_skel f chunk ign {| at_local := Some t; at_remote := None |}
-  = Ok {| at_local := Some t; at_remote := Some (prune f t) |}.
-Proof. intros t f chunk ign. exact (upload_fresh f chunk ign t). Qed.
+Theorem c20_tree : forall t flt chunk ign, 1 <= chunk -> wf_tree t = true -> t <> Special ->
+  transfer Gen_classic.upload_skel flt chunk ign {| at_local := Some t; at_remote := None |}
+  = Ok {| at_local := Some t; at_remote := Some (prune (guard the_guard flt) t) |}.
+Proof. intros t flt chunk ign. exact (upload_fresh the_guard flt chunk ign t). Qed.
 Print Assumptions c20_tree.
 
-Theorem c20_tree_download : forall t f chunk ign, 1 <= chunk -> wf_tree t = true -> t <> Special ->
-  transfer Gen_classic.download_skel f chunk ign {| at_local := None; at_remote := Some t |}
-  = Ok {| at_local := Some (prune f t); at_remote := Some t |}.
-Proof. intros t f chunk ign. exact (download_fresh f chunk ign t). Qed.
+Theorem c20_tree_download : forall t flt chunk ign, 1 <= chunk -> wf_tree t = true -> t <> Special ->
+  transfer Gen_classic.download_skel flt chunk ign {| at_local := None; at_remote := Some t |}
+  = Ok {| at_local := Some (prune (guard the_guard flt) t); at_remote := Some t |}.
+Proof. intros t flt chunk ign. exact (download_fresh the_guard flt chunk ign t). Qed.
 Print Assumptions c20_tree_download.
 
-(* 3. [prune] removes exactly the entries the filter rejects (with their subtrees) and the entries that are neither
+(* 2'. the guard is the caller's filter -- [wanted]: None accepts everything, an object accepts what its predicate accepts --
+       whenever the code tests `filter is None`, and in any case for every filter object that is true in a boolean context *)
+Theorem c20_tree_filtered_as_asked : forall t flt chunk ign, 1 <= chunk -> wf_tree t = true -> t <> Special ->
+  the_guard = GIsNone \/ truthy_or_none flt = true ->
+  transfer Gen_classic.upload_skel flt chunk ign {| at_local := Some t; at_remote := None |}
+    = Ok {| at_local := Some t; at_remote := Some (prune (wanted flt) t) |} /\
+  transfer Gen_classic.download_skel flt chunk ign {| at_local := None; at_remote := Some t |}
+    = Ok {| at_local := Some (prune (wanted flt) t); at_remote := Some t |}.
+Proof.
+  intros t flt chunk ign H1 H2 H3 H4. split.
+  - exact (upload_fresh_wanted the_guard flt chunk ign t H1 H2 H3 H4).
+  - exact (download_fresh_wanted the_guard flt chunk ign t H1 H2 H3 H4).
+Qed.
+Print Assumptions c20_tree_filtered_as_asked.
+
+(* 2''. on a tree that tests the truth value of the filter (`not filter or filter(fn)`) the clause "a name filter excludes
+        exactly the entries it rejects" fails for filter objects that are false in a boolean context: a predicate that
+        rejects every name lets every file through, in both directions *)
+Theorem c20_filter_refuted_when_truthiness_guard : the_guard = GTruthy ->
+  forall chunk ign k data, 1 <= chunk ->
+  wanted (Some falsy_reject_all) k = false /\
+  transfer Gen_classic.upload_skel (Some falsy_reject_all) chunk ign {| at_local := Some (Dir [(k, File data)]); at_remote := None |}
+    = Ok {| at_local := Some (Dir [(k, File data)]); at_remote := Some (Dir [(k, File data)]) |} /\
+  transfer Gen_classic.download_skel (Some falsy_reject_all) chunk ign {| at_local := None; at_remote := Some (Dir [(k, File data)]) |}
+    = Ok {| at_local := Some (Dir [(k, File data)]); at_remote := Some (Dir [(k, File data)]) |}.
+Proof.
+  intros G chunk ign k data H.
+  pose proof (truthiness_guard_ignores_falsy_filter chunk ign k data H) as T.
+  destruct c20_tie as (-> & -> & _). rewrite G. exact T.
+Qed.
+Print Assumptions c20_filter_refuted_when_truthiness_guard.
+
+(* 3. [prune] removes exactly the entries the predicate rejects (with their subtrees) and the entries that are neither
       file nor directory: a non-root path leads to something in the pruned tree iff it leads to a file or directory
-      in the original and the filter accepts every name on it -- and what is there is the pruned original *)
+      in the original and the predicate accepts every name on it -- and what is there is the pruned original *)
 Theorem c20_filter_exact : forall f p t n, wf_tree t = true -> p <> [] ->
   (lookup p (prune f t) = Some n <->
    exists n0, lookup p t = Some n0 /\ n0 <> Special /\ forallb f p = true /\ n = prune f n0).
@@ -58,46 +93,46 @@ Print Assumptions c20_filter_exact.
 (* 4. into a destination that already has content: whenever the call returns, the source side is unchanged,
       every kept source file is there with its bytes, every kept source directory is a directory, and every path the
       (pruned) source does not have is exactly as it was *)
-Theorem c20_tree_into_existing : forall f chunk ign t dst w', 1 <= chunk -> wf_tree t = true ->
-  transfer Gen_classic.upload_skel f chunk ign {| at_local := Some t; at_remote := dst |} = Ok w' ->
+Theorem c20_tree_into_existing : forall flt chunk ign t dst w', 1 <= chunk -> wf_tree t = true ->
+  transfer Gen_classic.upload_skel flt chunk ign {| at_local := Some t; at_remote := dst |} = Ok w' ->
   at_local w' = Some t /\
-  forall p, match lookup p (prune f t) with
+  forall p, match lookup p (prune (guard the_guard flt) t) with
             | Some (File d) => lookup_o p (at_remote w') = Some (File d)
             | Some (Dir _) => dir_at p (at_remote w') = true
             | _ => lookup_o p (at_remote w') = lookup_o p dst
             end.
-Proof. intros f chunk ign t dst w'. exact (upload_existing f chunk ign t dst w'). Qed.
+Proof. intros flt chunk ign t dst w'. exact (upload_existing the_guard flt chunk ign t dst w'). Qed.
 Print Assumptions c20_tree_into_existing.
 
-Theorem c20_tree_into_existing_download : forall f chunk ign t dst w', 1 <= chunk -> wf_tree t = true ->
-  transfer Gen_classic.download_skel f chunk ign {| at_local := dst; at_remote := Some t |} = Ok w' ->
+Theorem c20_tree_into_existing_download : forall flt chunk ign t dst w', 1 <= chunk -> wf_tree t = true ->
+  transfer Gen_classic.download_skel flt chunk ign {| at_local := dst; at_remote := Some t |} = Ok w' ->
   at_remote w' = Some t /\
-  forall p, match lookup p (prune f t) with
+  forall p, match lookup p (prune (guard the_guard flt) t) with
             | Some (File d) => lookup_o p (at_local w') = Some (File d)
             | Some (Dir _) => dir_at p (at_local w') = true
             | _ => lookup_o p (at_local w') = lookup_o p dst
             end.
-Proof. intros f chunk ign t dst w'. exact (download_existing f chunk ign t dst w'). Qed.
+Proof. intros flt chunk ign t dst w'. exact (download_existing the_guard flt chunk ign t dst w'). Qed.
 Print Assumptions c20_tree_into_existing_download.
 
 (* 4'. ... and it does return when no accepted file meets a directory and no accepted directory meets a non-directory *)
-Theorem c20_tree_into_existing_succeeds : forall f chunk ign t dst, 1 <= chunk -> wf_tree t = true -> t <> Special ->
-  compat f t dst = true ->
-  exists w', transfer Gen_classic.upload_skel f chunk ign {| at_local := Some t; at_remote := dst |} = Ok w'.
-Proof. intros f chunk ign t dst. exact (upload_existing_succeeds f chunk ign t dst). Qed.
+Theorem c20_tree_into_existing_succeeds : forall flt chunk ign t dst, 1 <= chunk -> wf_tree t = true -> t <> Special ->
+  compat (guard the_guard flt) t dst = true ->
+  exists w', transfer Gen_classic.upload_skel flt chunk ign {| at_local := Some t; at_remote := dst |} = Ok w'.
+Proof. intros flt chunk ign t dst. exact (upload_existing_succeeds the_guard flt chunk ign t dst). Qed.
 Print Assumptions c20_tree_into_existing_succeeds.
 
 (* 5. upload and download are one function up to which side is remote *)
-Theorem c20_symmetry : forall f chunk ign w,
-  transfer Gen_classic.download_skel f chunk ign (swap w) = rmap swap (transfer Gen_classic.upload_skel f chunk ign w).
-Proof. intros. exact (transfer_swap Gen_classic.upload_skel f chunk ign w). Qed.
+Theorem c20_symmetry : forall flt chunk ign w,
+  transfer Gen_classic.download_skel flt chunk ign (swap w) = rmap swap (transfer Gen_classic.upload_skel flt chunk ign w).
+Proof. intros. exact (transfer_swap Gen_classic.upload_skel flt chunk ign w). Qed.
 Print Assumptions c20_symmetry.
 
 (* 6. nothing, or something that is neither file nor directory, at the top: ValueError, or nothing happens when ignored *)
-Theorem c20_invalid_top : forall f chunk dst src, src = None \/ src = Some Special ->
-  transfer Gen_classic.upload_skel f chunk false {| at_local := src; at_remote := dst |} = Raise ValueError /\
-  transfer Gen_classic.upload_skel f chunk true {| at_local := src; at_remote := dst |} = Ok {| at_local := src; at_remote := dst |}.
-Proof. exact upload_invalid. Qed.
+Theorem c20_invalid_top : forall flt chunk dst src, src = None \/ src = Some Special ->
+  transfer Gen_classic.upload_skel flt chunk false {| at_local := src; at_remote := dst |} = Raise ValueError /\
+  transfer Gen_classic.upload_skel flt chunk true {| at_local := src; at_remote := dst |} = Ok {| at_local := src; at_remote := dst |}.
+Proof. exact (upload_invalid the_guard). Qed.
 Print Assumptions c20_invalid_top.
 
 (* ---- non-vacuity ---- *)
@@ -111,7 +146,8 @@ Definition sample : node :=
        (nm "emptydir", Dir []);
        (nm "skip.pyc", Dir [(nm "inner", File payload)]);
        (nm "f", File payload)].
-Definition no_pyc : name -> bool := fun k => negb (has_suffix (nm ".pyc") k).
+Definition no_pyc_pred : name -> bool := fun k => negb (has_suffix (nm ".pyc") k).
+Definition no_pyc : option filter_obj := Some {| fo_truthy := true; fo_pred := no_pyc_pred |}.
 Definition sample_pruned : node :=
   Dir [(nm "a", Dir [(nm "empty", File []); (nm "one", File [x7f]); (nm "b", Dir [(nm "exact", File (payload ++ [x44; x45]))])]);
        (nm "emptydir", Dir []);
@@ -120,7 +156,7 @@ Definition existing : node :=
   Dir [(nm "keep", File [x01]); (nm "f", File [x02; x03]); (nm "a", Dir [(nm "old", Dir [])]); (nm "skip.pyc", File [x09])].
 
 Example c20_sample_meets_hypotheses :
-  wf_tree sample = true /\ sample <> Special /\ prune no_pyc sample = sample_pruned /\
+  wf_tree sample = true /\ sample <> Special /\ truthy_or_none no_pyc = true /\ prune (wanted no_pyc) sample = sample_pruned /\
   transfer Gen_classic.upload_skel no_pyc 3 false {| at_local := Some sample; at_remote := None |}
     = Ok {| at_local := Some sample; at_remote := Some sample_pruned |} /\
   transfer Gen_classic.download_skel no_pyc 1 false {| at_local := None; at_remote := Some sample |}
@@ -134,7 +170,7 @@ Example c20_sample_writes :
 Proof. vm_compute. repeat split. Qed.
 
 Example c20_sample_into_existing :
-  compat no_pyc sample (Some existing) = true /\
+  compat (guard the_guard no_pyc) sample (Some existing) = true /\
   transfer Gen_classic.upload_skel no_pyc 2 false {| at_local := Some sample; at_remote := Some existing |}
   = Ok {| at_local := Some sample;
           at_remote := Some (Dir [(nm "keep", File [x01]); (nm "f", File payload);
@@ -151,6 +187,6 @@ Example c20_break_if_short_loses_tail :
   copy_file_with [SRead; SBreakIfShort; SWrite] 3 payload = Ok [x00; xff; x0a; x0d; x41; x42].
 Proof. vm_compute. reflexivity. Qed.
 Example c20_file_on_directory_fails :
-  transfer Gen_classic.upload_skel (fun _ => true) 3 false
+  transfer Gen_classic.upload_skel None 3 false
     {| at_local := Some (Dir [(nm "x", File payload)]); at_remote := Some (Dir [(nm "x", Dir [])]) |} = Raise OtherError.
 Proof. vm_compute. reflexivity. Qed.
